@@ -30,11 +30,29 @@
     `majorities_intersect`     quorum intersection;
     `grant_restricts`          vote restriction: a granted vote implies `is_target_log_more_recent`;
     `commit_recorded_prefix`   what `recordCommit` stores is a prefix of the committing leader's log (a chain).
-  Not proved (named gap): the global induction `leader_completeness` under H_noWipe ∧ H_durableAck (H_electionSafety is a theorem:
-  `C04.election_safety`, used by the step lemmas above)
-  (election argument: commit quorum ∩ vote quorum, per-voter history between acknowledgement and vote).
+  Proved (the first half of C05, over the sub-relation of `step` that excludes exactly the F8 and F9 triggers):
+    `leader_completeness_partial`  in every state reachable by benign steps (`ReachableB`; benign = `benignB` =
+                               H_durableAck ∧ H_noWipe per step, `benign_iff_hyps`: a crash discards nothing at the node
+                               it hits, the delivery of a prev=(0,0) request discards nothing at its target; every other
+                               event is unrestricted) every entry covered by a commit record of term t is in the log of
+                               every node that leads in a later term.  No other hypothesis (election safety and log
+                               matching are theorems, C04).  Proof in Lemmas/ClusterComplete*.lean (≈4500 lines):
+                               `RInv` requests of a sitting leader come from its log; `GInv` shape of the ghost map;
+                               `DInv` match_index / acknowledgement soundness (fix c57f05e: the acknowledgement names what
+                               the request verified, `acceptOrKeep_ack`); `CInv` a commit record is backed by a strict
+                               majority that held its last entry in that entry's own term (`median_majority`);
+                               `HInv` such an entry stays in a log unless a later leader that did not have it took over,
+                               the up-to-date check hands a voter's entries to the candidate (`up_to_date`), a winner
+                               inherits from its voters; `won_logs_hold` = strong induction on the later term with
+                               `quorums_meet`.
+    `benignDemo_ok`            non-vacuity: a concrete benign schedule with a commit and a leader change;
+    `witnesses_not_benign`     the F8 and F9 witness schedules are not benign (the hypotheses exclude exactly them).
+  Still open: the second half for EVERY node (`NoDiscardStatement`) is not a theorem even for benign schedules (a follower
+  that lags in term may have a committed entry overwritten by a deposed leader's request and gets it back later);
+  `no_discard_committed_partial` states what does hold.
 -/
 import DEngine.Lemmas.ClusterKeep
+import DEngine.Lemmas.ClusterCompleteFinal
 import DEngine.Props.C04
 namespace DEngine.C05
 open DEngine.Cluster DEngine.C04
@@ -222,5 +240,83 @@ example : Reachable 3 2 (run (Cluster.init 3 2) (f8Schedule.take 12)) ∧
     theEntry ∈ ((run (Cluster.init 3 2) (f8Schedule.take 12)).nodes 2).log ∧
     committedB (run (Cluster.init 3 2) (f8Schedule.take 12)) theEntry 2 = true := by
   refine ⟨reachable_run 3 2 _ _ Reachable.init, ?_, ?_, ?_⟩ <;> decide +kernel
+
+
+-- ------------------------------------------------------------------------------------------ leader completeness, proved
+/-- States reachable by BENIGN steps only: every step satisfies `benignB` = H_durableAck ∧ H_noWipe
+    (`benignB_iff`): a crash discards no entry of the node it hits (F8 trigger excluded) and the delivery of a
+    prev=(0,0) request discards no entry of its target (F9 trigger excluded).  Every other event — timers, votes,
+    deliveries in any order, loss, duplication, stream errors, writes, graceful restarts, crashes that lose nothing — is
+    unrestricted. -/
+inductive ReachableB (n cap : Nat) : Cluster → Prop
+  | init : ReachableB n cap (Cluster.init n cap)
+  | step {c : Cluster} (e : Event) : ReachableB n cap c → benignB c e = true → ReachableB n cap (step c e).1
+
+theorem reachableB_reachable {n cap : Nat} {c : Cluster} (hr : ReachableB n cap c) : Reachable n cap c := by
+  induction hr with
+  | init => exact Reachable.init
+  | step e _ _ ih => exact Reachable.step e ih
+
+theorem reachableB_hist {n cap : Nat} {c : Cluster} (hr : ReachableB n cap c) : ∃ H, ReachH n cap c H := by
+  induction hr with
+  | init => exact ⟨{}, ReachH.init⟩
+  | step e _ hb ih => obtain ⟨H, hH⟩ := ih; exact ⟨_, ReachH.step e hH hb⟩
+
+/-- the two named hypotheses, per step, are exactly the benign predicate -/
+theorem benign_iff_hyps (c : Cluster) (e : Event) : benignB c e = true ↔ H_durableAck c e ∧ H_noWipe c e :=
+  benignB_iff c e
+
+theorem committedB_mem {c : Cluster} {e : Entry} {t : Nat} (h : committedB c e t = true) :
+    ∃ pre, (t, pre) ∈ c.commits ∧ e ∈ pre := by
+  simp only [committedB, List.any_eq_true, Bool.and_eq_true, beq_iff_eq, List.contains_iff_mem] at h
+  obtain ⟨p, hp, ht, he⟩ := h
+  exact ⟨p.2, by rw [← ht]; exact hp, he⟩
+
+/-- C05 `leader_completeness`, proved over the benign sub-relation: in every state reachable without an F8 / F9 trigger,
+    every entry covered by the commit index of a leader of term t is in the log of every node that leads in a later
+    term.  Proof (Lemmas/ClusterComplete*.lean): history ghost (who held which entry in the entry's own term; the log of
+    every winner when it won); `DInv` match_index / acknowledgement soundness (since fix c57f05e the acknowledgement
+    names what the request verified); `CInv` a commit record is backed by a strict majority (`median_majority`);
+    `HInv` an entry held in its own term stays unless a later leader without it took over, the up-to-date check hands
+    a voter's entries to the candidate (`up_to_date`), a winner inherits from its voters; `won_logs_hold` strong
+    induction on the later term with `quorums_meet`. -/
+theorem leader_completeness_partial {n cap : Nat} {c : Cluster} (hr : ReachableB n cap c) : LeaderCompleteness c := by
+  intro e t j hc hrole hlt
+  obtain ⟨H, hH⟩ := reachableB_hist hr
+  obtain ⟨pre, hp, he⟩ := committedB_mem hc
+  exact leader_completeness_benign hH t pre hp e he j hrole hlt
+
+theorem reachableB_run {n cap : Nat} : ∀ (es : List Event) (c : Cluster), ReachableB n cap c →
+    allBenign c es = true → ReachableB n cap (run c es) := by
+  intro es
+  induction es with
+  | nil => intro c h _; exact h
+  | cons e es ih =>
+    intro c h hb
+    simp only [allBenign, Bool.and_eq_true] at hb
+    exact ih _ (ReachableB.step e h hb.1) hb.2
+
+/-- Non-vacuity.  A benign schedule with a commit and a leader change: node 2 wins term 2, replicates its noop to node 1
+    (a prev=(0,0) request delivered to an empty log: nothing to discard) and commits it; node 2 is stopped; node 1 wins
+    term 3 with node 3's vote. -/
+def benignDemo : List Event :=
+  [.tick 2, .tick 2, .voteReq 2 1, .voteResp 2 1, .voteEnd 2, .deliverAe 1, .deliverResp 3, .stop 2,
+   .tick 1, .tick 1, .voteReq 1 3, .voteResp 1 3, .voteEnd 1]
+
+theorem benignDemo_ok :
+    ReachableB 3 2 (run (Cluster.init 3 2) benignDemo) ∧
+    ((run (Cluster.init 3 2) benignDemo).nodes 1).role = .leader ∧
+    ((run (Cluster.init 3 2) benignDemo).nodes 1).term = 3 ∧
+    committedB (run (Cluster.init 3 2) benignDemo) ⟨1, 2, 0⟩ 2 = true ∧
+    (⟨1, 2, 0⟩ : Entry) ∈ ((run (Cluster.init 3 2) benignDemo).nodes 1).log := by
+  refine ⟨reachableB_run benignDemo _ ReachableB.init (by decide +kernel), by decide +kernel, by decide +kernel,
+    by decide +kernel, ?_⟩
+  exact leader_completeness_partial (reachableB_run benignDemo _ ReachableB.init (by decide +kernel))
+    ⟨1, 2, 0⟩ 2 1 (by decide +kernel) (by decide +kernel) (by decide +kernel)
+
+/-- the F8 and F9 witness schedules are NOT benign: the hypotheses exclude exactly those triggers -/
+theorem witnesses_not_benign :
+    allBenign (Cluster.init 3 1) f9Schedule = false ∧ allBenign (Cluster.init 3 2) f8Schedule = false := by
+  constructor <;> decide +kernel
 
 end DEngine.C05
